@@ -154,4 +154,25 @@ theorem pending_tables_name_distinct_operations (cfg : Config) (evs : List Event
     vals_nodup _ b.tns (runEvents (Engine.new cfg) evs).1.ops (fun pid id hl => by
       obtain ⟨o, ho, hpid, _⟩ := b.tn pid id hl; exact ⟨o, ho, hpid⟩)⟩
 
+/-- **No leak, every history.**  When every operation has completed (the operation table is empty) no packet
+    identifier remains reserved — whatever mix of operations, acknowledgement orders, timeouts, validation failures
+    after an id was bound, disconnect points, session outcomes and allocator wrap-arounds the history contains. -/
+theorem nothing_reserved_when_all_complete (cfg : Config) (evs : List Event)
+    (hdone : (runEvents (Engine.new cfg) evs).1.ops = []) :
+    (runEvents (Engine.new cfg) evs).1.allocated = [] := by
+  cases hal : (runEvents (Engine.new cfg) evs).1.allocated with
+  | nil => rfl
+  | cons x xs =>
+    exfalso
+    have hm : (runEvents (Engine.new cfg) evs).1.allocated.lookup x.1 = some x.2 := by
+      rw [hal]; obtain ⟨a, b⟩ := x; simp [List.lookup]
+    obtain ⟨o, ho, _⟩ := reserved_id_is_held cfg evs x.1 x.2 hm
+    simp [hdone] at ho
+
+/-- non-vacuity: the QoS 1 publish of the example above, acknowledged: the table is empty again and so is the reservation -/
+example : let e := (runEvents (Engine.new {}) [.user 0 (.publish { qos := 1, topic := [97] } 7 none), .opened 1 100, .service 2 4096 0,
+      .writeDone 3, .data 4 [0x20, 0x03, 0x00, 0x00, 0x00], .service 5 4096 0, .writeDone 6, .data 7 [0x40, 0x02, 0x00, 0x01]]).1
+    e.ops.length = 0 ∧ e.allocated = [] := by
+  decide +kernel
+
 end GV.Props.C06
